@@ -925,20 +925,50 @@ def values_equal_approx(a, b):
 # ------------------------------------------------------- quasi-affine comparison
 class _Interner:
     """Replaces sub-expressions outside the quasi-affine fragment by fresh integer
-    symbols; two such sub-expressions get the same symbol iff their own canonical
-    forms coincide (sound for proving equality)."""
+    symbols; two such sub-expressions get the same symbol iff they have the same
+    operator and pairwise *semantically equal* operands (decided recursively by the
+    same procedure) - sound for proving equality."""
 
-    def __init__(self):
+    def __init__(self, depth=0):
         self.keys = {}
         self.exprs = {}
+        self.items = []  # (op, args, name)
+        self.depth = depth
+
+    def _same(self, a, b):
+        if a == b:
+            return True
+        if not (isinstance(a, E) and isinstance(b, E)):
+            return a == b
+        if self.depth > 3:
+            return False
+        try:
+            if ratfunc(a).equals(ratfunc(b)):
+                return True
+        except Inconclusive:
+            pass
+        try:
+            return qa_compare(a, b, depth=self.depth + 1)[0] == "equal"
+        except Inconclusive:
+            return False
 
     def atom(self, e):
         k = _atom_key(e, False)
-        if k not in self.keys:
-            name = "@%d" % len(self.keys)
-            self.keys[k] = name
-            self.exprs[name] = e
-        return sym(self.keys[k])
+        if k in self.keys:
+            return sym(self.keys[k])
+        for op, args, name in self.items:
+            if op == e.op and len(args) == len(e.args):
+                if all(self._same(x, y) for x, y in zip(args, e.args)):
+                    self.keys[k] = name
+                    return sym(name)
+                if e.op in ("max", "min", "mul") and len(args) == 2 and self._same(args[0], e.args[1]) and self._same(args[1], e.args[0]):
+                    self.keys[k] = name
+                    return sym(name)
+        name = "@%d" % len(self.exprs)
+        self.keys[k] = name
+        self.exprs[name] = e
+        self.items.append((e.op, e.args, name))
+        return sym(name)
 
 
 def _qa(e, it, divs):
@@ -1005,12 +1035,12 @@ def _qa_test(t, it, divs):
     return None
 
 
-def qa_compare(e1, e2, max_points=300000):
+def qa_compare(e1, e2, max_points=300000, depth=0):
     """Compare two integer-valued expressions as quasi-affine forms.
 
     Returns ('equal', info) or ('differ', witness, has_atoms, interner) where
     witness is a valuation over base symbols and interned atoms."""
-    it = _Interner()
+    it = _Interner(depth)
     divs = []
     q1 = _qa(e1, it, divs)
     q2 = _qa(e2, it, divs)
